@@ -654,6 +654,9 @@ def register(an):
                 an.obligation(frame, 'overflow', 'pow', t.sp, ok, None if ok else 'pow may overflow: %s' % sorted(vals)[-3:])
                 return an._from_set(st, ty, {v for v in vals if lo <= v <= hi} or {0})
             al, au, bl, bu = st.lb(a), st.ub(a), st.lb(b), st.ub(b)
+            if None not in (al, au, bl, bu) and al >= 0 and bl >= 0 and (bu > 256 or au > 2**64):
+                an.obligation(frame, 'overflow', 'pow', t.sp, False, 'exponent/base unbounded')
+                return None
             if None not in (al, au, bl, bu) and al >= 0 and bl >= 0:
                 mx = au ** bu
                 ok = mx <= hi
@@ -906,6 +909,11 @@ def register(an):
             if s is not None and e is not None:
                 return ('iter', 'range', s, e, v[5][0] if len(v) > 5 and v[5] else 'usize', v[1].endswith('Inclusive'))
         return ('iter', 'opaque')
+
+    @model('core::ops::range::RangeInclusive::new')
+    def m_range_inclusive_new(an, t, args, frame, st, c):
+        ga = c.get('ga', [])
+        return ('adt', 'core::ops::range::RangeInclusive', frozenset([0]), {(0, 'start'): args[0], (0, 'end'): args[1]}, None, tuple(ga))
 
     @model('core::iter::traits::collect::IntoIterator::into_iter', 'core::slice::<impl [T]>::iter', 'core::slice::<impl [T]>::iter_mut')
     def m_into_iter(an, t, args, frame, st, c):
